@@ -154,6 +154,10 @@ def rare_derivation_inputs():
     for c, s in sorted(d.get("ed_carry", {}).items()):
         if s.encode() not in out:
             out.append(s.encode())
+    # Ed25519 seeds whose search takes exactly k increments, k = 0..20 (tools/make_steps.py): the alphabet "length of the search"
+    for c, s in sorted(d.get("ed_steps", {}).items(), key=lambda kv: int(kv[0])):
+        if s.encode() not in out:
+            out.append(s.encode())
     return out
 
 
